@@ -121,9 +121,10 @@ def main():
         alarms = {c: r for c, r in det.items() if isinstance(r, dict) and r.get("exit") != 0}
         dest = f"{VERIF}/benign/{vid}"
         os.makedirs(dest, exist_ok=True)
-        shutil.copy(f"{patch_dir}/patch.diff", f"{dest}/patch.diff")
-        if os.path.exists(f"{patch_dir}/note.md"):
-            shutil.copy(f"{patch_dir}/note.md", f"{dest}/note.md")
+        if os.path.abspath(patch_dir) != os.path.abspath(dest):
+            shutil.copy(f"{patch_dir}/patch.diff", f"{dest}/patch.diff")
+            if os.path.exists(f"{patch_dir}/note.md"):
+                shutil.copy(f"{patch_dir}/note.md", f"{dest}/note.md")
         json.dump({"variant": vid, "suite": suite, "detection": det, "alarms": sorted(alarms)}, open(f"{dest}/meta.json", "w"), indent=1)
         print(vid, "suite:", suite, "ALARMS:", {c: r.get("signatures") for c, r in alarms.items()})
         return
@@ -134,7 +135,12 @@ def main():
     if "--own" in sys.argv:
         checks = [sid.split("-")[0]]
     meta = json.load(open(f"{seed}/meta.json"))
-    conf = confirm(seed)
+    if isinstance(meta.get("meta"), dict):  # a directory under /verif/seeded: unwrap
+        meta = meta["meta"]
+    if "--no-confirm" in sys.argv and os.path.exists(f"{VERIF}/seeded/{sid}/meta.json"):
+        conf = json.load(open(f"{VERIF}/seeded/{sid}/meta.json")).get("confirmation", {})
+    else:
+        conf = confirm(seed)
     ok = conf.get("patch_applies") and conf.get("suite_passes_with_patch") and (conf.get("demo_fails_with_patch") or conf.get("demo_fails_with_patch_release")) and conf.get("demo_passes_without_patch") and conf.get("demo_passes_without_patch_release", True)
     out = {"seed": sid, "meta": meta, "confirmation": conf, "confirmed": bool(ok)}
     if ok:
@@ -161,7 +167,8 @@ def main():
         except Exception:
             pass
     for f in ("patch.diff", "demo.rs"):
-        shutil.copy(f"{seed}/{f}", f"{dest}/{f}")
+        if os.path.abspath(seed) != os.path.abspath(dest):
+            shutil.copy(f"{seed}/{f}", f"{dest}/{f}")
     json.dump(out, open(f"{dest}/meta.json", "w"), indent=1)
     print(json.dumps({k: out[k] for k in ("seed", "confirmed") if k in out}), "caught_by:", out.get("caught_by"))
     if not ok:
